@@ -13,7 +13,8 @@
 //     consistent snapshot through Listing()/Inner();
 //   - injects faults (DESIGN.md 2.5): "outage from the k-th mutation" (that call and every later
 //     call, reads included, fail), "process death before the k-th mutation" (os.Exit, for child
-//     processes on a filesystem bucket) and "fail the j-th read matching a predicate once".
+//     processes on a filesystem bucket), "fail the j-th read matching a predicate once" and "let the
+//     j-th matching Get succeed but make the returned reader fail after k bytes" (FailBody).
 //
 // It never panics inside a bucket call (uploads run in errgroup goroutines; a panic there would kill
 // the test process).
@@ -38,7 +39,7 @@ var ErrInjected = errors.New("bucketrec: injected failure")
 type Op struct {
 	Seq      int    // 1-based index among all recorded calls
 	Mut      int    // 1-based index among mutating calls; 0 for reads
-	Kind     string // upload | delete | get | get_range | exists | iter | iter_attrs | attributes
+	Kind     string // upload | delete | get | get_range | get_body | exists | iter | iter_attrs | attributes
 	Name     string // object name / directory
 	Size     int64  // bytes written (upload)
 	OK       bool   // the call succeeded (for mutations: the bucket state changed)
@@ -68,11 +69,17 @@ type Bucket struct {
 	readLeft  int // fail when the counter reaches 0 (counts matching reads); <0 = disarmed
 	readGate  func() bool
 	keepReads bool
+
+	bodyFault func(kind, name string) bool
+	bodyLeft  int    // the matching Get whose body fails (counts down to 0); <0 = disarmed
+	bodyPos   string // "zero" | "mid" | "last": error before the first byte / in the middle / before the last byte
+	bodyGate  func() bool
+	bodyFired bool
 }
 
 // New wraps inner. Reads are recorded too unless RecordReads(false) is called.
 func New(inner objstore.Bucket) *Bucket {
-	return &Bucket{inner: inner, readLeft: -1, keepReads: true}
+	return &Bucket{inner: inner, readLeft: -1, bodyLeft: -1, keepReads: true}
 }
 
 // Inner returns the wrapped bucket (for snapshots and for preparing state without recording).
@@ -118,6 +125,7 @@ func (b *Bucket) Heal() {
 	b.mu.Lock()
 	defer b.mu.Unlock()
 	b.outage, b.outageAt, b.exitAt, b.readLeft, b.readFault, b.readGate = false, 0, 0, -1, nil, nil
+	b.bodyFault, b.bodyLeft, b.bodyGate = nil, -1, nil
 }
 
 // InOutage reports whether the outage has begun.
@@ -130,6 +138,20 @@ func (b *Bucket) FailRead(match func(kind, name string) bool, j int, gate func()
 	defer b.mu.Unlock()
 	b.readFault, b.readLeft, b.readGate = match, j, gate
 }
+
+// FailBody lets, once, the j-th (1-based) Get / GetRange call from now on for which match returns
+// true (and gate(), when non-nil, is true) SUCCEED, but makes the reader it returns fail with
+// ErrInjected after part of the object's bytes: pos "zero" = before the first byte, "mid" = after
+// half of them, "last" = before the last byte. The failure is recorded (kind "get_body") when the
+// reader delivers it.
+func (b *Bucket) FailBody(match func(kind, name string) bool, j int, pos string, gate func() bool) {
+	b.mu.Lock()
+	defer b.mu.Unlock()
+	b.bodyFault, b.bodyLeft, b.bodyPos, b.bodyGate, b.bodyFired = match, j, pos, gate, false
+}
+
+// BodyFaultFired reports whether the armed body fault has been delivered to a reader of the code under test.
+func (b *Bucket) BodyFaultFired() bool { b.mu.Lock(); defer b.mu.Unlock(); return b.bodyFired }
 
 // ReadFaultFired reports whether the armed read fault has been delivered.
 func (b *Bucket) ReadFaultFired() bool {
@@ -154,6 +176,7 @@ func (b *Bucket) Reset() {
 	defer b.mu.Unlock()
 	b.ops, b.nmut = nil, 0
 	b.outage, b.outageAt, b.exitAt, b.readLeft, b.readFault, b.readGate = false, 0, 0, -1, nil, nil
+	b.bodyFault, b.bodyLeft, b.bodyGate, b.bodyFired = nil, -1, nil, false
 }
 
 // Listing returns name -> size of every object of the wrapped bucket.
@@ -257,6 +280,73 @@ func (b *Bucket) mutate(kind, name string, do func() (int64, error)) error {
 	return err
 }
 
+// wantBodyFault decides (and consumes the countdown) whether the reader of this successful Get must fail.
+func (b *Bucket) wantBodyFault(kind, name string) (bool, string) {
+	b.mu.Lock()
+	defer b.mu.Unlock()
+	if b.bodyFault == nil || b.bodyLeft <= 0 || !b.bodyFault(kind, name) || (b.bodyGate != nil && !b.bodyGate()) {
+		return false, ""
+	}
+	b.bodyLeft--
+	return b.bodyLeft == 0, b.bodyPos
+}
+
+// faultyBody serves the first `good` bytes of data and then fails.
+type faultyBody struct {
+	b     *Bucket
+	kind  string
+	name  string
+	data  []byte
+	good  int
+	off   int
+	fired bool
+}
+
+func (f *faultyBody) Read(p []byte) (int, error) {
+	if f.off < f.good {
+		n := copy(p, f.data[f.off:f.good])
+		f.off += n
+		return n, nil
+	}
+	if !f.fired {
+		f.fired = true
+		f.b.mu.Lock()
+		f.b.bodyFired = true
+		f.b.record(Op{Kind: "get_body", Name: f.name, Size: int64(f.good), Injected: true, Err: ErrInjected.Error()})
+		f.b.mu.Unlock()
+	}
+	return 0, ErrInjected
+}
+
+func (f *faultyBody) Close() error { return nil }
+
+// withBody wraps the reader of a successful Get when the armed body fault applies to it.
+func (b *Bucket) withBody(kind, name string, rc io.ReadCloser, err error) (io.ReadCloser, error) {
+	if err != nil || rc == nil {
+		return rc, err
+	}
+	hit, pos := b.wantBodyFault(kind, name)
+	if !hit {
+		return rc, err
+	}
+	data, rerr := io.ReadAll(rc)
+	rc.Close()
+	if rerr != nil {
+		return nil, rerr
+	}
+	good := 0
+	switch pos {
+	case "mid":
+		good = len(data) / 2
+	case "last":
+		good = len(data) - 1
+	}
+	if good < 0 {
+		good = 0
+	}
+	return &faultyBody{b: b, kind: kind, name: name, data: data, good: good}, nil
+}
+
 type countingReader struct {
 	r io.Reader
 	n int64
@@ -310,7 +400,7 @@ func (b *Bucket) Get(ctx context.Context, name string) (io.ReadCloser, error) {
 	}
 	rc, err := b.inner.Get(ctx, name)
 	b.readDone("get", name, err)
-	return rc, err
+	return b.withBody("get", name, rc, err)
 }
 
 func (b *Bucket) GetRange(ctx context.Context, name string, off, length int64) (io.ReadCloser, error) {
@@ -319,7 +409,7 @@ func (b *Bucket) GetRange(ctx context.Context, name string, off, length int64) (
 	}
 	rc, err := b.inner.GetRange(ctx, name, off, length)
 	b.readDone("get_range", name, err)
-	return rc, err
+	return b.withBody("get_range", name, rc, err)
 }
 
 func (b *Bucket) Exists(ctx context.Context, name string) (bool, error) {
